@@ -268,7 +268,8 @@ class Out:
             if indent or (val == '}' and self.ser.prefs.indentClosingBrace):
                 self.out.append(self.ser._indentblock(val, self.ser._level + 1))
             else:
-                if val.endswith(' '):
+                if val.endswith(' ') and not val.endswith('\\ '):
+                    # (a name may end with an escaped space, which is not white space)
                     self._remove_last_if_S()
                 self.out.append(val)
 
